@@ -192,7 +192,7 @@ def plan(tier, seed):
         jobs.append({"sub": "pdag_exh", "p": p, "shard": 0, "nshards": 1, "seed": seed, "cost": 1})
     for k in range(16):
         jobs.append({"sub": "pdag_exh", "p": 4, "shard": k, "nshards": 16, "seed": seed, "cost": 10})
-    n = scaled(3200 if tier == "quick" else 100000)
+    n = scaled(12800 if tier == "quick" else 200000)
     shards = 16 if tier == "quick" else 64
     for k in range(shards):
         jobs.append({"sub": "hyp", "seed": seed, "shard": k, "n": max(1, n // shards), "cost": 8})
